@@ -65,6 +65,19 @@ func observeConfig(c *ucfg.Config, opts ...ucfg.Option) string {
 }
 
 func c09Explore(sc c09Scenario, bound, fullBudget int) core.Result {
+	if vec, replaying := core.ReplayChoices(); replaying {
+		// replay of a recorded violation: the sorted-order execution and exactly the recorded one
+		var a, b string
+		if pi := core.Guard(func() { a = choice.Replay(nil, sc.Run); b = choice.Replay(vec, sc.Run) }); pi != nil {
+			return apiPanic("orders", pi)
+		}
+		if a != b {
+			v := core.Fail("orders", "ORDER-DEPENDENT replay", fmt.Sprintf("sorted order => %s || choices %v => %s", trunc200(a), vec, trunc200(b)))
+			v.Viol.Choices = vec
+			return v
+		}
+		return core.Result{Nontrivial: true}
+	}
 	ex := &choice.Explorer{Bound: bound, FullBudget: fullBudget, MaxExec: 20000}
 	var res core.Result
 	pi := core.Guard(func() {
@@ -104,6 +117,11 @@ func c09Explore(sc c09Scenario, bound, fullBudget int) core.Result {
 		}
 		v := core.Fail("orders", "ORDER-DEPENDENT "+sigKind, fmt.Sprintf("%d distinct outcomes over %d executions: %s", len(outs), ex.Executions, strings.Join(parts, " || ")))
 		v.Trans = ex.Executions
+		// the non-sorted vector of the pair is what a replay executes
+		v.Viol.Choices = ex.Outcomes[outs[0]]
+		if deviationsOf(v.Viol.Choices) == 0 {
+			v.Viol.Choices = ex.Outcomes[outs[1]]
+		}
 		return v
 	}
 	for o := range ex.Outcomes {
@@ -114,6 +132,16 @@ func c09Explore(sc c09Scenario, bound, fullBudget int) core.Result {
 		}
 	}
 	return res
+}
+
+func deviationsOf(c []int) int {
+	n := 0
+	for _, x := range c {
+		if x != 0 {
+			n++
+		}
+	}
+	return n
 }
 
 func trunc200(s string) string {
